@@ -96,13 +96,28 @@ fn check(case: &SemCase, net: &Net, f: &F) -> Verdict {
     })
 }
 
+/// The pair of evaluation variants on a case beyond the explicit evaluator's reach: both must be
+/// equal, and (through `check_scale`) equal to the reference symbolic evaluator's result.
+fn check_scale_pair(case: &crate::scale::ScaleCase, budget: std::time::Duration) -> Verdict {
+    crate::scale::check_scale_with("C18", case, budget, std::sync::Arc::new(|graph: &biodivine_lib_param_bn::symbolic_async_graph::SymbolicAsyncGraph, text: &str, reference: &biodivine_lib_param_bn::symbolic_async_graph::GraphColoredVertices| {
+        match model_check_formula_unsafe_ex(text, graph) {
+            Err(e) => Some(("unexpected-error:model_check_formula_unsafe_ex".to_string(), format!("model_check_formula_unsafe_ex returned Err({e}) on `{text}`"))),
+            Ok(r) if &r != reference => Some((
+                "differs-on-loop-insensitive-fragment".to_string(),
+                format!("`{text}`: model_check_formula_unsafe_ex differs from model_check_formula_dirty: {}", crate::scale::witness_of(graph, &r, reference)),
+            )),
+            Ok(_) => None,
+        }
+    }))
+}
+
 impl Property for C18 {
-    type Raw = (RawSem, bool);
+    type Raw = crate::scale::WithMid<(RawSem, bool)>;
     fn id(&self) -> &'static str {
         "C18"
     }
     fn rule(&self) -> String {
-        "(a) random network x closed plain formula mapped into the fragment without EX, AX, AF, EG, AU, EW (EF, AG, EU, AW and all hybrid operators remain); (b) random network forced to be steady-state free (one variable with update function `!v`; checked with the explicit model for every valid colour) x any closed plain formula incl. EW/AW and the two shortcut patterns. Oracle: model_check_formula_unsafe_ex == model_check_formula_dirty (BDD equality), and == explicit semantics (16 colours). Non-trivial: (a) the formula has EF/AG/EU/AW and some valid colour has a steady state; (b) the formula has an EX-based operator.".into()
+        "(a) random network x closed plain formula mapped into the fragment without EX, AX, AF, EG, AU, EW (EF, AG, EU, AW and all hybrid operators remain); (b) random network forced to be steady-state free (one variable with update function `!v`; checked with the explicit model for every valid colour) x any closed plain formula incl. EW/AW and the two shortcut patterns. Oracle: model_check_formula_unsafe_ex == model_check_formula_dirty (BDD equality), and == explicit semantics (16 colours). (c) ~1 % of the random cases: generated mid-size networks (7-10 variables plus 0-8 frozen ones) x fragment formula, and a deterministic stage of 14 / 56 fragment formulae on 20 / 30 bundled models: both variants equal to each other and to the reference symbolic evaluator (refsym.rs; calibrated at the start of the run). Non-trivial: (a) the formula has EF/AG/EU/AW and some valid colour has a steady state; (b) the formula has an EX-based operator.".into()
     }
     fn assumptions(&self) -> Vec<String> {
         vec!["same trusted base as C01; steady states are determined with the explicit model".into()]
@@ -111,9 +126,25 @@ impl Property for C18 {
         tier.pick(40_000, 1_000_000)
     }
     fn strategy(&self, tier: Tier) -> BoxedStrategy<Self::Raw> {
-        (raw_sem(tier.pick(3, 4), 1..=1, 5, tier.pick(16, 22)), any::<bool>()).boxed()
+        crate::scale::with_mid((raw_sem(tier.pick(3, 4), 1..=1, 5, tier.pick(16, 22)), any::<bool>()).boxed(), 99, 1, tier.pick(600, 2500))
     }
     fn check_raw(&self, raw: &Self::Raw) -> Verdict {
+        let raw = match raw {
+            crate::scale::WithMid::Small(r) => r,
+            crate::scale::WithMid::Mid(raw, ms) => {
+                // mid-size network (7-18 variables): fragment formula, both variants against the reference
+                let mut net = raw.0.clone();
+                net.heavy = net.heavy && *ms >= 1000;
+                return match crate::scale::mid_case_with(&net, &raw.1, raw.2, FCfg::PLAIN_WEAK, &raw.3) {
+                    Err(r) => Verdict::Discard(r),
+                    Ok(mut case) => {
+                        let f = crate::refparse::parse(&case.formula, false).expect("own rendering");
+                        case.formula = into_fragment(&f).canon();
+                        check_scale_pair(&case, std::time::Duration::from_millis(*ms))
+                    }
+                };
+            }
+        };
         let mut r = raw.0.clone();
         // half of the cases: steady-state-free network, any formula; other half: fragment
         r.net.force_oscillator = raw.1;
@@ -128,6 +159,30 @@ impl Property for C18 {
         }
     }
     fn replay(&self, case: &Value) -> Verdict {
+        if case.get("scale").is_some() {
+            return match serde_json::from_value::<crate::scale::ScaleCase>(case.clone()) {
+                Ok(c) => check_scale_pair(&c, std::time::Duration::from_secs(600)),
+                Err(_) => Verdict::Discard("unreadable-case"),
+            };
+        }
         replay_with(case, |case, net, fs| check(case, net, &fs[0]))
+    }
+    fn extra_stages(&self, tier: Tier, seed: u64, stats: &mut Stats) -> Option<Failure> {
+        // bundled models: fragment formulae, unsafe_ex == dirty == reference symbolic evaluator
+        crate::scale::calibrate(seed, tier.pick(1500, 20_000), FCfg::PLAIN_WEAK, stats);
+        let mut models: Vec<&str> = crate::scale::SCALE_MODELS_QUICK.to_vec();
+        if tier == Tier::Thorough {
+            models.extend(crate::scale::SCALE_MODELS_MORE);
+        }
+        crate::scale::bundled_stage_custom(
+            "C18",
+            &models,
+            tier.pick(8, 50),
+            seed,
+            FCfg::PLAIN_WEAK,
+            &|f| into_fragment(f),
+            &|case| check_scale_pair(case, std::time::Duration::from_secs(tier.pick(5, 30))),
+            stats,
+        )
     }
 }
